@@ -27,6 +27,7 @@ fn tx_ops(tx: &Transaction) {
     let _ = format!("{}", tx); let _ = format!("{:?}", tx);
     let _ = tx.nb_inputs(); let _ = tx.nb_outputs();
     let ex = tx.prefix.extra.try_parse(); let _ = format!("{}", ex); let _ = ex.tx_pubkey(); let _ = ex.tx_additional_pubkeys();
+    for sf in &ex.0 { subfield_ops(sf); }
     let _ = ExtraField::try_parse(&tx.prefix.extra);
     // re-serialisation of the PARSED extra and `From<ExtraField> for RawExtraField` (its `unwrap`), whatever try_parse said
     let _ = serialize(&ex); let _ = RawExtraField::from(ex.clone());
@@ -57,6 +58,8 @@ fn other_view_pairs() -> Vec<ViewPair> {
     if let Ok(id) = PublicKey::from_slice(&one) { v.push(ViewPair { view: vp.view, spend: id }); }
     v
 }
+/// every public operation offered on a parsed extra sub-field (formatting a parsed object must complete, whatever its content)
+fn subfield_ops(sf: &SubField) { let _ = format!("{}", sf); let _ = format!("{:?}", sf); let _ = format!("{:#?}", sf); let b = serialize(sf); let _ = deserialize::<SubField>(&b); let _ = serde_json::to_string(sf); }
 fn block_ops(b: &Block) {
     let s = serialize(b); let _ = deserialize::<Block>(&s);
     let _ = b.id(); let _ = b.tx_root(); let _ = b.serialize_hashable(); let _ = format!("{}", b); let _ = format!("{:?}", b.header);
@@ -80,10 +83,13 @@ pub fn exec(t: &[&str]) -> Option<String> {
                 "block" => okerr(deserialize::<Block>(&b), |x| block_ops(x)),
                 "prefix" => okerr(deserialize::<TransactionPrefix>(&b), |x| { let _ = x.hash(); let _ = format!("{}", x); let _ = x.check_outputs(&view_pair(), 0..2, 0..2, None); }),
                 "extra" => { let raw = RawExtraField(b.clone()); let r = ExtraField::try_parse(&raw); let f = match &r { Ok(f) => f, Err(f) => f };
-                    let _ = format!("{}", f); let _ = f.tx_pubkey(); let _ = f.tx_additional_pubkeys(); let _ = serialize(f); let _ = raw.try_parse();
+                    let _ = format!("{}", f); let _ = format!("{:?}", f); for sf in &f.0 { subfield_ops(sf); }
+                    let _ = f.tx_pubkey(); let _ = f.tx_additional_pubkeys(); let _ = serialize(f); let _ = raw.try_parse();
                     // `From<ExtraField> for RawExtraField` on BOTH values (C04_raw_from_parsed_extra_no_panic covers the fields kept by a failed parse too)
                     let _ = RawExtraField::from(f.clone());
                     if r.is_ok() { "ok".into() } else { "err".into() } }
+                // strict `deserialize::<SubField>`; on success every operation on the sub-field, alone and as a one-field extra
+                "subfield" => okerr(deserialize::<SubField>(&b), |sf| { subfield_ops(sf); let ef = ExtraField(vec![sf.clone()]); let _ = format!("{}", ef); let _ = ef.tx_pubkey(); let _ = ef.tx_additional_pubkeys(); let _ = serialize(&ef); }),
                 "address_bytes" => okerr(Address::from_bytes(&b), |a| addr_ops(a)),
                 "address_str" => if !valid_utf8 { "err".into() } else { okerr(Address::from_str(&s), |a| addr_ops(a)) },
                 "address_hex" => okerr(<Address as hex::FromHex>::from_hex(&b), |a| addr_ops(a)),
@@ -116,6 +122,12 @@ pub fn exec(t: &[&str]) -> Option<String> {
                     if ops { let _ = f.tx_pubkey(); let _ = f.tx_additional_pubkeys(); let _ = serialize(f); let _ = RawExtraField::from(f.clone()); }
                     if r.is_ok() { "ok".into() } else { "err".into() } }
                 _ => return None }) }
+        // `c04_ledger big <family> <n> <measured>` / `c04_ledger hex <entry> <measured> <hex>`: the measured peak heap (bytes, a number in
+        // the line) of a PARSE-ONLY run, which the Lean side holds to the peak of the allocation ledger (`(rtx b).peak` …). The
+        // implementation side measures again and answers `ok` when the number in the line is what this build allocates (within 1/8 + 4 KiB).
+        ["c04_ledger", "big", fam, n, claimed] => { let claimed = claimed.parse::<usize>().ok()?; n.parse::<usize>().ok()?;
+            let (r, p, _) = measured(|| exec(&["c04_big", fam, n, "parse"])); r?; Some(same_peak(p, claimed)) }
+        ["c04_ledger", "hex", entry, claimed, h] => { let claimed = claimed.parse::<usize>().ok()?; let b = unhex(h); Some(same_peak(parse_peak(entry, &b)?, claimed)) }
         ["c04_dec", "base", i, o, h] => { let b = unhex(h); let (i, o) = (i.parse::<u64>().ok()? as usize, o.parse::<u64>().ok()? as usize);
             Some(okerr(monero::util::ringct::RctSigBase::consensus_decode(&mut &b[..], i, o), |x| { if let Some(s) = x { let _ = serialize(s); let _ = format!("{}", s); } })) }
         ["c04_dec", "prunable", ty, i, o, m, h] => { let b = unhex(h); let ty = *gen::RCT_TYPES.get(ty.parse::<usize>().ok()?)?;
@@ -134,6 +146,17 @@ pub fn exec(t: &[&str]) -> Option<String> {
     }
 }
 
+
+fn same_peak(p: usize, claimed: usize) -> String { if p <= claimed + claimed / 8 + 4096 && claimed <= p + p / 8 + 4096 { "ok".into() } else { format!("remeasured {}", p) } }
+/// peak heap growth (bytes) during `deserialize::<T>(b)` alone — the input, the line and the result text are outside the bracket
+pub fn parse_peak(entry: &str, b: &[u8]) -> Option<usize> {
+    Some(match entry {
+        "tx" => measured(|| deserialize::<Transaction>(b).is_ok()).1,
+        "block" => measured(|| deserialize::<Block>(b).is_ok()).1,
+        "prefix" => measured(|| deserialize::<TransactionPrefix>(b).is_ok()).1,
+        "varint" => measured(|| deserialize::<VarInt>(b).is_ok()).1,
+        _ => return None })
+}
 
 // ------------------------------------------------------------------------------------------------ large inputs
 const G_BYTES: [u8; 32] = [0x58, 0x66, 0x66, 0x66, 0x66, 0x66, 0x66, 0x66, 0x66, 0x66, 0x66, 0x66, 0x66, 0x66, 0x66, 0x66, 0x66, 0x66, 0x66, 0x66, 0x66, 0x66, 0x66, 0x66, 0x66, 0x66, 0x66, 0x66, 0x66, 0x66, 0x66, 0x66];
@@ -166,6 +189,9 @@ pub fn big_input(fam: &str, n: usize) -> Option<(&'static str, Vec<u8>)> {
 /// bound claimed for parsing alone (no operation on the value): the two nested capped pre-allocations, the slope of `bound`, and
 /// 64 KiB instead of 4 MiB for everything else
 pub fn big_bound(input_len: usize) -> usize { 2 * monero::consensus::encode::MAX_VEC_MEM_ALLOC_SIZE + (64 << 10) + 160 * input_len }
+/// parse-only bound for the entry points covered by the allocation ledger (transaction, block, VarInt): the PROVED one,
+/// `C04_alloc_bound_tx/_block`: 2·CAP + 96·|input|, plus the input buffer itself (1·|input|) and 64 KiB for the process
+pub fn ledger_bound(input_len: usize) -> usize { 2 * monero::consensus::encode::MAX_VEC_MEM_ALLOC_SIZE + (64 << 10) + 97 * input_len }
 
 // ------------------------------------------------------------------------------------------------ outputs owned by `view_pair()`
 /// how the commitment `out_pk[i]` of an owned output relates to its ecdh info
@@ -238,9 +264,10 @@ pub fn bound(input_len: usize) -> usize { 2 * monero::consensus::encode::MAX_VEC
 
 struct Iso { kid: Kid, respawns: u64 }
 impl Iso {
-    fn run(&mut self, o: &mut Out, line: String, input_len: usize, nontrivial: bool) { self.run_b(o, line, input_len, nontrivial, bound(input_len)) }
+    fn run(&mut self, o: &mut Out, line: String, input_len: usize, nontrivial: bool) { self.run_b(o, line, input_len, nontrivial, bound(input_len)); }
     /// the same with the heap bound chosen by the caller (never larger than `bound`)
-    fn run_b(&mut self, o: &mut Out, line: String, input_len: usize, nontrivial: bool, limit: usize) {
+    /// returns the peak heap measured in the child (None if the child died or hung)
+    fn run_b(&mut self, o: &mut Out, line: String, input_len: usize, nontrivial: bool, limit: usize) -> Option<usize> {
         let limit = limit.min(bound(input_len));
         let stdin = self.kid.child.stdin.as_mut().unwrap();
         let sent = writeln!(stdin, "{}", line).and_then(|_| stdin.flush()).is_ok();
@@ -252,7 +279,7 @@ impl Iso {
                 o.stat(if peak > 16 << 20 { "peak.gt16MiB" } else if peak > 1 << 20 { "peak.1-16MiB" } else { "peak.lt1MiB" });
                 o.stat_n("micros.total", us as u64);
                 o.stat(if res == "ok" || res.starts_with("ok ") { "outcome.ok" } else { "outcome.err" });
-                o.case(line, res, nontrivial); }
+                o.case(line, res, nontrivial); Some(peak) }
             None => { // the child died (abort: allocation failure / stack overflow / capacity overflow outside catch_unwind) or hung
                 let alive = matches!(self.kid.child.try_wait(), Ok(None));
                 let what = if alive { "C04: entry point did not return within the time limit" } else { "C04: process aborted (allocation failure, stack overflow or abort)" };
@@ -260,7 +287,7 @@ impl Iso {
                 o.direct(false, what, line.clone(), "no result".into(), "ok or err".into());
                 o.stat(if alive { "outcome.timeout" } else { "outcome.abort" });
                 o.case(line, if alive { "TIMEOUT".into() } else { "ABORT".into() }, nontrivial);
-                self.kid = spawn(); self.respawns += 1; }
+                self.kid = spawn(); self.respawns += 1; None }
         }
     }
 }
@@ -294,17 +321,20 @@ pub fn run(o: &mut Out, tier: &str, seed: u64) {
     let thorough = tier == "thorough";
     let n_tx = if thorough { 600 } else { 90 };
     let bin = |iso: &mut Iso, o: &mut Out, ty: &str, b: &[u8], nt: bool| { iso.run(o, format!("c04_ops {} {}", ty, hex(b)), b.len(), nt); };
+    // allocation ledger vs measurement: the peak heap of `deserialize::<T>(b)` alone (measured here, in this process) goes into a
+    // `c04_ledger hex` line; the Lean driver answers `ok` iff it is at most the ledger's peak for `b` + 256 bytes
+    let led = |o: &mut Out, ty: &str, b: &[u8]| { if let Some(p) = parse_peak(ty, b) { o.op(format!("c04_ledger hex {} {} {}", ty, p, hex(b)), false); o.stat("ledger.hex"); o.stat_n("ledger.hex.measured_bytes", p as u64); } };
     // (1) valid, mutated, truncated-at-every-position and declared-length-attacked transactions and blocks
     for it in 0..n_tx {
         let tx = gen::tx(&mut r); let b = serialize(&tx);
-        bin(&mut iso, o, "tx", &b, true);
-        for _ in 0..(if thorough { 12 } else { 6 }) { let m = gen::mutate(&mut r, &b); bin(&mut iso, o, "tx", &m, false); }
+        bin(&mut iso, o, "tx", &b, true); led(o, "tx", &b);
+        for k in 0..(if thorough { 12 } else { 6 }) { let m = gen::mutate(&mut r, &b); bin(&mut iso, o, "tx", &m, false); if k == 0 { led(o, "tx", &m); } }
         if it % 6 == 0 { for m in lenpos_attacks(&b, &mut r) { bin(&mut iso, o, "tx", &m, false); } }
         if it % 15 == 0 && b.len() < 1500 { for k in 0..b.len() { bin(&mut iso, o, "tx", &b[..k], false); } }
-        if it % 3 == 0 { let pb = serialize(&tx.prefix); bin(&mut iso, o, "prefix", &pb, true); let m = gen::mutate(&mut r, &pb); bin(&mut iso, o, "prefix", &m, false);
+        if it % 3 == 0 { let pb = serialize(&tx.prefix); bin(&mut iso, o, "prefix", &pb, true); led(o, "prefix", &pb); let m = gen::mutate(&mut r, &pb); bin(&mut iso, o, "prefix", &m, false);
             bin(&mut iso, o, "extra", &tx.prefix.extra.0, true); }
         if it % 4 == 0 { let nh = if it % 20 == 0 { r.range(100, 3000) as usize } else { r.below(8) as usize }; let blk = gen::block(&mut r, nh); let bb = serialize(&blk);
-            bin(&mut iso, o, "block", &bb, true); for _ in 0..4 { let m = gen::mutate(&mut r, &bb); bin(&mut iso, o, "block", &m, false); }
+            bin(&mut iso, o, "block", &bb, true); led(o, "block", &bb); for _ in 0..4 { let m = gen::mutate(&mut r, &bb); bin(&mut iso, o, "block", &m, false); }
             if it % 12 == 0 { for m in lenpos_attacks(&bb, &mut r) { bin(&mut iso, o, "block", &m, false); } } }
     }
     // (1b) small transactions of every RingCT type with a count attack at every byte position (finds every count field, whatever
@@ -427,9 +457,17 @@ pub fn run(o: &mut Out, tier: &str, seed: u64) {
               ("tx_extra_0200", 200_000, "parse"), ("block_hashes", 1 << 17, "parse"), ("block_hashes", 1 << 20, "parse"), ("block_hashes", (1 << 20) + 1, "parse"), ("varint_ff", 1 << 20, "parse"), ("tx_ff", 1 << 20, "parse"), ("block_ff", 1 << 22, "parse")] }
           else { &[("tx_outs", 3_000, "parse"), ("tx_outs", 600, "ops"), ("extra_0200", 100_000, "parse"), ("extra_0200", 20_000, "ops"), ("extra_keys", 5_000, "ops"), ("extra_nonces", 1_000, "ops"), ("tx_extra_0200", 50_000, "parse"),
               ("block_hashes", 1 << 15, "parse"), ("block_hashes", 1 << 20, "parse"), ("varint_ff", 1 << 20, "parse"), ("tx_ff", 1 << 18, "parse"), ("block_ff", 1 << 20, "parse")] };
-      for (fam, n, mode) in sizes { let len = big_input(fam, *n).map(|x| x.1.len()).unwrap_or(0);
-          let limit = if *mode == "parse" { big_bound(len) } else { bound(len) };
-          iso.run_b(o, format!("c04_big {} {} {}", fam, n, mode), len, true, limit); o.stat("big.inputs"); o.stat_n("big.bytes", len as u64); } }
+      for (fam, n, mode) in sizes { let (entry, len) = big_input(fam, *n).map(|x| (x.0, x.1.len())).unwrap_or(("", 0));
+          let limit = if *mode == "parse" { if matches!(entry, "tx" | "block" | "varint") { ledger_bound(len) } else { big_bound(len) } } else { bound(len) };
+          iso.run_b(o, format!("c04_big {} {} {}", fam, n, mode), len, true, limit); o.stat("big.inputs"); o.stat_n("big.bytes", len as u64); }
+      // the `0xff^n` families (a VarInt that never ends: the scratch vector of `VarInt::consensus_decode` grows with the input, no cap)
+      // at sizes the Lean model evaluates: the peak measured in the child goes into a `c04_ledger big` line, held by the driver to the
+      // ledger's peak + the input buffer + 1 KiB. Sizes just above a power of two: the capacity has just doubled.
+      let ff: &[(&str, usize)] = if thorough { &[("varint_ff", 1), ("varint_ff", 9), ("varint_ff", 16_385), ("tx_ff", 12_289), ("block_ff", 8_193), ("varint_ff", 40_001), ("tx_ff", 32_769), ("block_ff", 20_000)] }
+          else { &[("varint_ff", 1), ("varint_ff", 9), ("varint_ff", 16_385), ("tx_ff", 12_289), ("block_ff", 8_193)] };
+      for (fam, n) in ff { if let Some(peak) = iso.run_b(o, format!("c04_big {} {} parse", fam, n), *n, true, ledger_bound(*n)) { o.op(format!("c04_ledger big {} {} {}", fam, n, peak), true); o.stat("ledger.big"); } }
+      // VarInts of every length (valid, over-long, zero in a later position, unterminated) against the ledger
+      for k in 0..14usize { for tail in [&[0x7fu8][..], &[0x01], &[0x00], &[]] { let mut b = vec![0xffu8; k]; b.extend_from_slice(tail); led(o, "varint", &b); } } }
 
     // (10) RingCT type Full with MANY inputs and a LONG first ring, the encoding cut shortly after the base part (before / inside
     //      the MLSAG rows): the decoder may reserve one row, (inputs + 1) keys, at a time — never ring x (inputs + 1) x 32 bytes up
@@ -461,7 +499,60 @@ pub fn run(o: &mut Out, tier: &str, seed: u64) {
               bin(&mut iso, o, "extra", e, true);
               let mut tx = gen::miner_tx(&mut r); tx.prefix.extra = RawExtraField(e.clone()); let b = serialize(&tx); bin(&mut iso, o, "tx", &b, true); }
           o.stat("long_subfields"); } }
+    // (12) nonces that LOOK like a payment id but are shorter: `02 <len> <00|01> <len-1 bytes>` for every len 1..=34 (a plain payment id is
+    //      0x00 + 32 bytes, an encrypted one 0x01 + 8 bytes) — through `deserialize::<SubField>`, `ExtraField::try_parse` (alone, after a
+    //      transaction key, followed by an unknown tag so that the Err value keeps the nonce) and inside a miner transaction that is then
+    //      scanned and formatted: formatting a PARSED object (`Display`, `Debug`, per sub-field and as a whole) must complete
+    { let mut tk = vec![1u8]; tk.extend(G_BYTES);
+      for first in [0u8, 1] { for len in 0usize..=34 {
+          let mut sf = vec![2u8, len as u8]; if len > 0 { sf.push(first); sf.extend(r.bytes(len - 1)); } else if first == 1 { continue; }
+          bin(&mut iso, o, "subfield", &sf, true);
+          bin(&mut iso, o, "extra", &sf, true);
+          if thorough || len % 4 == 1 || len >= 31 || (8..=10).contains(&len) { bin(&mut iso, o, "extra", &[tk.clone(), sf.clone()].concat(), true); bin(&mut iso, o, "extra", &[sf.clone(), vec![7u8, 1]].concat(), false); }
+          let mut tx = gen::miner_tx(&mut r); tx.prefix.extra = RawExtraField([tk.clone(), sf.clone()].concat()); bin(&mut iso, o, "tx", &serialize(&tx), true);
+          o.stat("nonce.pid_like"); } } }
+    // (13) merge-mining sub-fields whose SIZE byte is below 32 (the size byte is read and ignored by the decoder; depth VarInt and 32-byte
+    //      root follow): `03 <n> <n bytes>` for every n 0..=34 with random / zero / 0x80-run bodies — `deserialize::<SubField>`,
+    //      `ExtraField::try_parse` (alone, after a transaction key, followed by padding) and a scanned transaction carrying them;
+    //      plus well-formed ones (`03 21 <depth> <32 bytes>`) with a wrong (small, zero, 255) size byte
+    { let mut tk = vec![1u8]; tk.extend(G_BYTES);
+      for n in 0usize..=34 { for variant in 0..(if thorough { 4 } else { 2 }) {
+          let body: Vec<u8> = match variant { 0 => r.bytes(n), 1 => vec![0u8; n], 2 => vec![0x80u8; n], _ => { let mut b = r.bytes(n); if n > 0 { b[0] &= 0x7f; } b } };
+          let mut sf = vec![3u8, n as u8]; sf.extend(&body);
+          bin(&mut iso, o, "subfield", &sf, n >= 33);
+          bin(&mut iso, o, "extra", &sf, n >= 33);
+          if variant == 0 { bin(&mut iso, o, "extra", &[tk.clone(), sf.clone()].concat(), false); bin(&mut iso, o, "extra", &[sf.clone(), vec![0u8; 40 - n.min(40)]].concat(), false);
+              let mut tx = gen::miner_tx(&mut r); tx.prefix.extra = RawExtraField([tk.clone(), sf.clone()].concat()); bin(&mut iso, o, "tx", &serialize(&tx), true); }
+          o.stat("mergemining.small_size"); } }
+      for size in [0u8, 1, 2, 31, 32, 33, 34, 255] { let mut sf = vec![3u8, size, r.below(128) as u8]; sf.extend(r.bytes(32));
+          bin(&mut iso, o, "subfield", &sf, true); bin(&mut iso, o, "extra", &[tk.clone(), sf.clone()].concat(), true);
+          let mut tx = gen::miner_tx(&mut r); tx.prefix.extra = RawExtraField([tk.clone(), sf.clone()].concat()); bin(&mut iso, o, "tx", &serialize(&tx), true); } }
+    // (14) TEXT parsers on strings with a multi-byte character (2, 3 and 4 UTF-8 bytes) inserted at EVERY byte offset 0..=12 of a valid
+    //      text, overwriting the byte at that offset, and with URI-like prefixes ("monero:", "Monero:", "xmr:", …) — alone, in front of the
+    //      valid text, and with a multi-byte character at every offset of the prefix (a byte-indexed `&s[..k]` / `&s[k..]` or a
+    //      `split_at(k)` panics inside a character)
+    { let vp = view_pair(); let view = PublicKey::from_private_key(&vp.view);
+      let a = Address::standard(Network::Mainnet, vp.spend, view); let (addr, addr_hex) = (a.to_string(), a.as_hex());
+      let key_hex = hex(&vp.spend.to_bytes()); let sec_hex = hex(&vp.view.to_bytes());
+      let plan: Vec<(&str, Vec<String>)> = vec![
+          ("address_str", vec![addr.clone()]), ("address_hex", vec![addr_hex.clone(), format!("0x{}", addr_hex)]),
+          ("pubkey_str", vec![key_hex.clone()]), ("seckey_str", vec![sec_hex.clone()]), ("hash_hex", vec![key_hex.clone(), format!("0x{}", key_hex)]), ("hash_str", vec![key_hex.clone()]),
+          ("paymentid_hex", vec!["0123456789abcdef".into(), "0x0123456789abcdef".into()]),
+          ("amount_str", vec!["1.5 xmr".into(), "123456789012 piconero".into()]), ("samount_str", vec!["-0.25 XMR".into(), "-123456789012 pXMR".into()]),
+          ("amount_xmr", vec!["1.5".into(), "18446744.073709551615".into()]), ("samount_pico", vec!["-15".into(), "9223372036854775807".into()]),
+          ("denomination", vec!["xmr".into(), "piconero".into(), "millinero".into()])];
+      let chars = ["\u{b5}", "\u{20ac}", "\u{1f980}"];
+      let prefixes = ["monero:", "Monero:", "xmr:", "MONERO:", "monero://", "xmr://"];
+      for (entry, bases) in &plan { for base in bases {
+          let mut texts: Vec<String> = vec![base.clone()];
+          for off in 0..=base.len().min(12) { for ch in chars { texts.push(format!("{}{}{}", &base[..off], ch, &base[off..])); }
+              if off < base.len() { let ch = *r.pick(&chars); texts.push(format!("{}{}{}", &base[..off], ch, &base[off + 1..])); } }
+          for pre in prefixes { texts.push(format!("{}{}", pre, base)); texts.push(pre.to_string()); texts.push(format!("{} {}", pre, base));
+              for off in 0..=pre.len() { let ch = *r.pick(&chars); texts.push(format!("{}{}{}{}", &pre[..off], ch, &pre[off..], base)); }
+              let ch = *r.pick(&chars); texts.push(format!("{}{}", &pre[..pre.len() - 1], ch)); }
+          for (i, t) in texts.iter().enumerate() { iso.run(o, format!("c04_ops {} {}", entry, hex(t.as_bytes())), t.len(), i == 0); o.stat("text.multibyte_or_prefixed"); }
+      } } }
     let _ = iso.kid.child.kill(); let _ = iso.kid.child.wait();
     o.stat_n("child.respawns", iso.respawns);
-    o.notes.push(format!("every case ran in a child process under catch_unwind, a {} s limit and a counting allocator; claimed bound peak <= 2*CAP + 4 MiB + 160*|input|; non-trivial = inputs that parse (all public operations are then run on the value); c04_big parse-only cases are held to 2*CAP + 64 KiB + 160*|input|; c04_dec = public decoders with caller-chosen usize counts (the family Full + inputs = usize::MAX is guarded: confirmed overflow panic at ringct.rs `1 + inputs`, pending triage)", LIMIT_MS / 1000));
+    o.notes.push(format!("every case ran in a child process under catch_unwind, a {} s limit and a counting allocator; claimed bound peak <= 2*CAP + 4 MiB + 160*|input|; non-trivial = inputs that parse (all public operations are then run on the value); c04_big parse-only cases are held to 2*CAP + 64 KiB + 160*|input|, those of the entry points covered by the allocation ledger (transaction, block, VarInt) to the PROVED 2*CAP + 64 KiB + (96+1)*|input|; c04_ledger = the measured parse-only peak (number in the line) is held by the Lean driver to the peak of the allocation ledger of Model/Ledger.lean (+ 256 bytes, or + input + 1 KiB for the child-built 0xff^n inputs); c04_dec = public decoders with caller-chosen usize counts (the point Full + inputs = usize::MAX, which overflowed `1 + inputs` before the saturating_add fix, is in the family)", LIMIT_MS / 1000));
 }
